@@ -286,6 +286,10 @@ impl SecondaryStorage {
     }
 
     pub(super) async fn drop_table_inner(&self, table_id: TableRefId) -> StorageResult<()> {
+        // Wait for a compaction (or a deletion) of this table to finish and keep new ones out: a
+        // compaction that commits after the drop would add a RowSet to a table that is gone.
+        let _guard = self.txn_mgr.lock_for_deletion(table_id.table_id).await;
+
         let mut changeset = vec![];
 
         let entry = DropTableEntry { table_id };
